@@ -2,9 +2,13 @@ package props
 
 import (
 	"fmt"
+	"go/ast"
 	"go/format"
+	"go/parser"
+	"go/token"
 	"os"
 	"path/filepath"
+	"strconv"
 	"strings"
 	"testing"
 
@@ -222,9 +226,66 @@ func evalC09(cs *c09Case) (sig, msg string, info c09Info) {
 				return "combined-differs-from-chain:file-not-in-gofmt-form", fmt.Sprintf("(with the file formatted by gofmt beforehand the combined run and the chain agree)\nthe combined run differs from running the changes one after the other (want = chain, got = combined): %s\n%s\n--- chain result ---\n%s\n--- combined result ---\n%s", d.String(), show(), trunc(string(chainOut), 1200), trunc(string(combOut), 1200)), info
 			}
 		}
+		if name := c09SpelledOutLocal(cs); name != "" && c09OnlyImportsDiffer(chainOut, combOut) {
+			return "combined-differs-from-chain:plus-line-spells-out-a-local-named-like-an-import", fmt.Sprintf("(only the imports differ; a '+' line spells out %q, which is a local variable and the name of an import in this file)\nthe combined run differs from running the changes one after the other (want = chain, got = combined): %s\n%s\n--- chain result ---\n%s\n--- combined result ---\n%s", name, d.String(), show(), trunc(string(chainOut), 1200), trunc(string(combOut), 1200)), info
+		}
 		return "combined-differs-from-chain", fmt.Sprintf("the combined run differs from running the changes one after the other (want = chain, got = combined): %s\n%s\n--- chain result ---\n%s\n--- combined result ---\n%s", d.String(), show(), trunc(string(chainOut), 1200), trunc(string(combOut), 1200)), info
 	}
 	return "", "", info
+}
+
+// c09SpelledOutLocal returns a name that is, in the file, both the name of
+// an import and the name of a local variable or parameter, and that a '+'
+// line of some change spells out in front of a selector ("+conn.fd").
+func c09SpelledOutLocal(cs *c09Case) string {
+	f, err := parser.ParseFile(token.NewFileSet(), "f.go", cs.File, 0)
+	if err != nil {
+		return ""
+	}
+	imported := map[string]bool{}
+	for _, sp := range f.Imports {
+		if sp.Name != nil {
+			imported[sp.Name.Name] = true
+		} else if p, err := strconv.Unquote(sp.Path.Value); err == nil {
+			imported[p[strings.LastIndex(p, "/")+1:]] = true
+		}
+	}
+	found := ""
+	ast.Inspect(f, func(n ast.Node) bool {
+		if id, ok := n.(*ast.Ident); ok && id.Obj != nil && id.Obj.Kind == ast.Var && imported[id.Name] {
+			for _, ch := range cs.Changes {
+				for _, ln := range strings.Split(ch, "\n") {
+					if strings.HasPrefix(ln, "+") && strings.Contains(ln, id.Name+".") {
+						found = id.Name
+					}
+				}
+			}
+		}
+		return found == ""
+	})
+	return found
+}
+
+// c09OnlyImportsDiffer reports whether two files are the same but for their
+// import declarations.
+func c09OnlyImportsDiffer(a, b []byte) bool {
+	strip := func(src []byte) *ref.Tree {
+		f, err := parser.ParseFile(token.NewFileSet(), "f.go", src, 0)
+		if err != nil {
+			return nil
+		}
+		var decls []ast.Decl
+		for _, d := range f.Decls {
+			if g, ok := d.(*ast.GenDecl); ok && g.Tok == token.IMPORT {
+				continue
+			}
+			decls = append(decls, d)
+		}
+		f.Decls = decls
+		return ref.FromNode(f)
+	}
+	ta, tb := strip(a), strip(b)
+	return ta != nil && tb != nil && ref.FirstDifference(ta, tb, ref.Output) == nil
 }
 
 // ---- generators -------------------------------------------------------------------
@@ -545,6 +606,17 @@ func c09Unprintable(rt *rapid.T) *c09Case {
 // in the same process or in a run of its own.
 func c09Shadow(rt *rapid.T) *c09Case {
 	cs := &c09Case{Family: "synthetic-shadowed-package"}
+	if rapid.IntRange(0, 3).Draw(rt, "spelledOut") == 0 {
+		// The earlier change spells the local's name out on its '+' line; the
+		// later one takes away the last use of the package of that name.
+		cs.Family = "synthetic-shadowed-package-spelled-out"
+		cs.File = "package p\n\nimport (\n\tconn \"example.com/conn\"\n\t\"example.com/other\"\n)\n\nfunc use(conn *T) int {\n\treturn other.Get(conn)\n}\n\nfunc mk() {\n\tconn.Dial()\n}\n"
+		cs.Changes = []string{
+			"@@\n@@\n-other.Get(conn)\n+conn.fd\n",
+			"@@\n@@\n import conn \"example.com/conn\"\n\n-conn.Dial()\n+dial()\n",
+		}
+		return cs
+	}
 	pk := rapid.SampledFrom([][2]string{{"http", "net/http"}, {"strings", "strings"}, {"rand", "math/rand"}}).Draw(rt, "pkg")
 	name, path := pk[0], pk[1]
 	var f strings.Builder
